@@ -17,8 +17,11 @@ import subprocess
 import sys
 import time
 
-REPO = "/repo"
-VERIF = "/verif"
+# SEED_REPO / SEED_VERIF: evaluate against a scratch clone of /repo and a scratch copy of /verif (so that a long check of the
+# real tree can run at the same time); results are always stored under /verif/seeded
+REPO = os.environ.get("SEED_REPO", "/repo")
+VERIF = os.environ.get("SEED_VERIF", "/verif")
+STORE = "/verif"
 
 
 def sh(cmd, cwd=None, timeout=3600, env=None):
@@ -37,21 +40,21 @@ def main():
         meta = json.load(open(os.path.join(mdir, "meta.json")))
     except Exception as e:
         meta = {"note": "meta.json unreadable: %s" % e}
-    assert sh("git -C /repo status --porcelain --untracked-files=no")[1].strip() == "", "/repo is not clean"
+    assert sh("git -C " + REPO + " status --porcelain --untracked-files=no")[1].strip() == "", "/repo is not clean"
     t0 = time.time()
     # 1. demo on the pristine tree
     rc0, o0 = sh("sh %s %s" % (demo, REPO), cwd=mdir, timeout=900)
     out["demo_pristine_rc"] = rc0
     out["demo_pristine_tail"] = o0[-600:]
     try:
-        rc, o = sh("git -C /repo apply %s" % patch)
+        rc, o = sh("git -C " + REPO + " apply %s" % patch)
         out["applies"] = (rc == 0)
         if rc != 0:
             out["apply_error"] = o[-500:]
             raise SystemExit
         # 2. build + tests
-        rc, o = sh("cmake --build /repo/_build 2>&1 | tail -3")
-        rc2, o2 = sh("ctest --test-dir /repo/_build -j8 --timeout 900 2>&1 | tail -4")
+        rc, o = sh("cmake --build " + REPO + "/_build 2>&1 | tail -3")
+        rc2, o2 = sh("ctest --test-dir " + REPO + "/_build -j8 --timeout 900 2>&1 | tail -4")
         out["builds"] = "error" not in o.lower() and "FAILED" not in o
         out["tests_pass"] = "100% tests passed" in o2
         out["tests_tail"] = o2[-300:]
@@ -64,7 +67,7 @@ def main():
         out["checks"] = {}
         for c in [pid] + extra_checks:
             tc = time.time()
-            rc, o = sh("./check %s" % c, cwd=VERIF, timeout=5400)
+            rc, o = sh("./check %s" % c, cwd=VERIF, timeout=5400, env=dict(os.environ, IPR_REPO=REPO))
             viol = [l for l in o.splitlines() if l.startswith("VIOLATION")]
             keys = []
             for l in viol[:6]:
@@ -75,10 +78,10 @@ def main():
             out["checks"][c] = {"exit": rc, "violations": len(viol), "first": keys, "seconds": round(time.time() - tc, 1)}
         out["detected"] = out["checks"][pid]["exit"] == 1 and out["checks"][pid]["violations"] > 0
     finally:
-        sh("git -C /repo checkout -- .")
-        sh("cmake --build /repo/_build 2>&1 | tail -1")
+        sh("git -C " + REPO + " checkout -- .")
+        sh("cmake --build " + REPO + "/_build 2>&1 | tail -1")
     out["seconds"] = round(time.time() - t0, 1)
-    dst = os.path.join(VERIF, "seeded", name)
+    dst = os.path.join(STORE, "seeded", name)
     os.makedirs(dst, exist_ok=True)
     for f in ("patch.diff", "demo.cxx", "demo.sh"):
         if os.path.exists(os.path.join(mdir, f)):
